@@ -217,6 +217,8 @@ class VirtRig:
         self.prior_abort = None      # task that fails (by context) in an earlier, aborted call on the same Lab
         self.in_prior = False
         self.orphans: list = []
+        self.prior_fids: set = set()     # futures created by an earlier call on the same Lab
+        self.leftovers: list = []        # processes started for them during the call under observation
         self.tnames = None
         self.dep_order = None
         self.int_lines = int_lines   # line-boundary injection: list of global line-event indices
@@ -318,12 +320,29 @@ class VirtRig:
         """Schedule exhausted: let everything that is running finish (or die if it was told to).  A process
         that has reported its outcome is *not* made to exit: when it exits is the environment's choice, and
         the adversarial one (after run_tasks has returned) must stay reachable."""
+        if self.in_prior and self.prior_abort is not None:
+            # the earlier call is aborted as early as possible: the failing task reports alone, while the others still run
+            w = self.workers.get(self.prior_abort)
+            if w is not None and not w.will_die:
+                if w.state == 'run':
+                    self.finish(w)
+                    return
+                self.prior_grace = getattr(self, 'prior_grace', 0) + 1
+                if self.prior_grace <= 6:       # (its failure is on its way: nothing else reports in the meantime)
+                    return
+        own_running = False
         for w in list(self.workers.values()):
             if w.state == 'run':
+                own_running = True
                 self.defaulted += 1
                 if w.will_die:
                     self.die(w)
                 else:
+                    self.finish(w)
+        if not own_running and not self.resq and not any(w.state == 'put' for w in self.workers.values()):
+            # (only when the call under observation could not make progress otherwise)
+            for w in self.leftovers:
+                if w.state == 'run':
                     self.finish(w)
 
     def finish(self, w):
@@ -390,8 +409,15 @@ class VirtRig:
         fid = proc._kwargs.get('future_id')
         tid = _verif.future_task(fid)
         w = Worker(tid, proc)
-        w.will_die = self.will_die(tid)
-        self.workers[tid] = w
+        if fid in self.prior_fids and not self.in_prior:
+            # a process started for a future of the EARLIER call on this Lab (something kept it): it is nobody's worker in
+            # the call under observation -- the schedule's decisions about task `tid` are about that call's own process --
+            # and the adversarial environment lets it run for as long as anything else is running
+            w.will_die = False
+            self.leftovers.append(w)
+        else:
+            w.will_die = self.will_die(tid)
+            self.workers[tid] = w
         saved = (list(labtech.logger.handlers), sys.stdout, sys.stderr, signal.getsignal(signal.SIGINT),
                  real_mp.current_process().name)
         prev_worker, prev_rig = self.cur_worker, U.RIG
@@ -431,7 +457,7 @@ class VirtRig:
         if self.phase == 'idle':
             self.apply_block('S')
             self.phase = 'pre'
-        for w in self.workers.values():
+        for w in list(self.workers.values()) + self.leftovers:
             if w.proc is proc:
                 return w.state in ('run', 'put')
         return False       # never started
@@ -439,7 +465,7 @@ class VirtRig:
     def join(self, proc, timeout):
         """Process.join(): without a timeout the caller blocks until the process has exited -- and when a process that has
         reported its outcome exits is the environment's choice.  The caller is at rest while it waits."""
-        for w in self.workers.values():
+        for w in list(self.workers.values()) + self.leftovers:
             if w.proc is proc and w.state in ('run', 'put'):
                 if timeout is None:
                     self.trace.append({'e': 'rest'})
@@ -452,7 +478,7 @@ class VirtRig:
         return None
 
     def terminate(self, proc):
-        for w in self.workers.values():
+        for w in list(self.workers.values()) + self.leftovers:
             if w.proc is proc and w.state in ('run', 'put'):
                 self.trace.append({'e': 'w_term', 't': w.tid})
                 w.state = 'dead'
@@ -615,6 +641,7 @@ class VirtRig:
                 signal.signal(signal.SIGALRM, old_alrm)
             self.in_prior = False
             self.orphans, self.workers = list(self.workers.values()), {}
+            self.prior_fids = set(_verif._future_tasks)
             del self.trace[:]
             self.logq, self.resq, self.monq = [], [], []
             self.phase, self.idle_polls, self.deadlock, self.round = 'idle', 0, False, 0
@@ -642,6 +669,7 @@ class VirtRig:
                 signal.signal(signal.SIGPROF, old_prof)
             self.in_prior = False
             self.orphans, self.workers = list(self.workers.values()), {}
+            self.prior_fids = set(_verif._future_tasks)
             del self.trace[:]
             self.logq, self.resq, self.monq = [], [], []
             self.phase, self.idle_polls, self.deadlock, self.round = 'idle', 0, False, 0
